@@ -37,11 +37,18 @@ NONTRIVIAL = ('MZM/PM: input carries a non-zero noise component, or is two-polar
               'total drive; LASER: non-zero phase-noise answers or df != 0 (distinct observations counted)')
 
 EPS = float(np.finfo(float).eps)
+EPS32 = float(np.finfo(np.float32).eps)
 
 # ----------------------------------------------------------------------------- alphabets
 FIELD6 = [0, 1, -1, 1j, 0.5 - 0.5j, 2]
 REAL6 = [0.0, 1.0, -1.0, 0.5, 2.0, -2.0]
+INT6 = [0, 1, -1, 3, 2, -2]
 LAYOUTS = ['1pol', '2pol', '1pol-real', '1pol-seeded']
+# dtype classes of the STORED field (optical_signal keeps the dtype it is given; the noise of these layouts is cast to the
+# same dtype so that the field really stays real / integer / single precision inside the library)
+LAYOUTS_X = ['2pol-real', '1pol-int', '2pol-int32', '1pol-f32', '2pol-c64']
+LAYOUT_DTYPE = {'1pol-real': float, '2pol-real': float, '1pol-int': np.int64, '2pol-int32': np.int32,
+                '1pol-f32': np.float32, '2pol-c64': np.complex64}
 NOISES = ['none', 'alt', 'zero', 'ramp', 'anti', 'seeded']   # 'alt' (+-0.1 alternating) has SUM == 0
 # drive levels in quarters of Vpi, simplest first: 0, +-Vpi, +-Vpi/2, +-2Vpi, ...
 LEVELS = [1, 0, 4, -4, 2, -2, 8, -8, -1, 3, -3, 5, -5, 6, -6, 7, -7]
@@ -52,12 +59,34 @@ WAVES = {
     'const4': [4],
     'prod102': [(i % 17) - 8 for i in range(102)],
 }
+# record lengths: 6 (one period of the field alphabet), 102, and the SHORT records 1, 2, 3 (a field of exactly one sample
+# is the corner where "length 1" stops meaning "scalar drive")
 WAVE_SPECS = [('wave', 'ramp6', 6), ('wave', 'alt01', 6), ('wave', 'neg6', 6), ('wave', 'const4', 6),
-              ('lvl', 0, 6), ('wave', 'prod102', 102)]
-LVL_SPECS = [('lvl', k, 6) for k in LEVELS]
+              ('lvl', 0, 6), ('wave', 'prod102', 102),
+              ('lvl', 4, 1), ('lvl', -1, 1), ('wave', 'alt01', 2), ('lvl', 2, 2), ('wave', 'neg6', 3)]
+LVL_SPECS = [('lvl', k, 6) for k in LEVELS] + [('lvl', 4, 1), ('lvl', 1, 1), ('lvl', 2, 2)]
 SCALAR_CONT = ['float', 'int', 'npfloat']
-WAVE_CONT_MZM = ['ndarray', 'ndarray_int', 'electrical_signal', 'list']
-WAVE_CONT_PM = ['ndarray', 'ndarray_int', 'electrical_signal', 'electrical_signal_noisy']
+WAVE_CONT_MZM = ['ndarray', 'ndarray_int', 'electrical_signal', 'list',
+                 'ndarray_f32', 'electrical_signal_int', 'electrical_signal_cplx']
+WAVE_CONT_PM = ['ndarray', 'ndarray_int', 'electrical_signal', 'electrical_signal_noisy',
+                'ndarray_f32', 'electrical_signal_int', 'electrical_signal_cplx']
+INT_CONT = ('int', 'ndarray_int', 'electrical_signal_int')
+ES_CONT = ('electrical_signal', 'electrical_signal_noisy', 'electrical_signal_int', 'electrical_signal_cplx')
+
+
+def prec_of(conts):
+    """working precision of the library arithmetic in units of the double eps: a float32 drive array makes numpy evaluate
+    theta / the phase and cos/sin/exp in single precision (same operation count, every rounding is a float32 rounding)"""
+    return EPS32 / EPS if any(c == 'ndarray_f32' for c in conts) else 1.0
+
+
+def wrong_lengths(N, cont):
+    """drive lengths that do NOT match a field of N samples: empty, 2, 3, N-1, N+1, N+6, 2N (length 1 against N > 1 is
+    treated apart, see `len1`); an empty electrical_signal cannot be constructed, so 0 is left out for those containers"""
+    bad = set([0, 2, 3, N - 1, N + 1, N + 6, 2 * N]) - {N, 1, -1}
+    if cont in ES_CONT:
+        bad.discard(0)
+    return sorted(bad)
 
 BIAS = [0.0, 0.5, -1.0, 0.3]          # in units of Vpi
 VPI = [5.0, 1.7, 1]                   # 1 is a python int on purpose
@@ -71,13 +100,28 @@ def is_scalar_cont(c):
 
 
 # ----------------------------------------------------------------------------- builders
+def _cyc(vals, N, shift=0):
+    off = 1 if N < 6 else 0          # short records start at the first NON-ZERO value of the alphabet
+    return [vals[(i + off + shift) % 6] for i in range(N)]
+
+
 def build_field(layout, N, seed):
     if layout == '1pol':
-        return np.array([FIELD6[i % 6] for i in range(N)], complex)
+        return np.array(_cyc(FIELD6, N), complex)
     if layout == '2pol':
-        return np.array([[FIELD6[i % 6] for i in range(N)], [FIELD6[(i + 1) % 6] for i in range(N)]], complex)
+        return np.array([_cyc(FIELD6, N), _cyc(FIELD6, N, 1)], complex)
     if layout == '1pol-real':
-        return np.array([REAL6[i % 6] for i in range(N)], float)
+        return np.array(_cyc(REAL6, N), float)
+    if layout == '2pol-real':
+        return np.array([_cyc(REAL6, N), _cyc(REAL6, N, 1)], float)
+    if layout == '1pol-int':
+        return np.array(_cyc(INT6, N), np.int64)
+    if layout == '2pol-int32':
+        return np.array([_cyc(INT6, N), _cyc(INT6, N, 1)], np.int32)
+    if layout == '1pol-f32':
+        return np.array(_cyc(REAL6, N), np.float32)
+    if layout == '2pol-c64':
+        return np.array([_cyc(FIELD6, N), _cyc(FIELD6, N, 1)], np.complex64)
     if layout == '1pol-seeded':
         r = np.random.RandomState(seed % (2 ** 31))
         return r.standard_normal(N) + 1j * r.standard_normal(N)
@@ -85,7 +129,20 @@ def build_field(layout, N, seed):
 
 
 def build_noise(kind, layout, N, seed):
-    two = layout == '2pol'
+    n = _build_noise(kind, layout, N, seed)
+    dt = LAYOUT_DTYPE.get(layout) if layout in LAYOUTS_X else None     # '1pol-real' keeps its historical complex noise
+    if n is None or dt is None:
+        return n
+    if dt is np.complex64:
+        return n.astype(np.complex64)
+    r = n.real + n.imag                                                 # non-zero wherever n is
+    if dt in (np.int64, np.int32):
+        return np.rint(20 * r).astype(dt)                               # 'alt' -> +-2, 'ramp' -> 0,0,0,1,1,1, ...
+    return r.astype(dt)
+
+
+def _build_noise(kind, layout, N, seed):
+    two = layout.startswith('2pol')
     i = np.arange(N)
     if kind == 'none':
         return None
@@ -118,8 +175,10 @@ def drive_values(spec, Vpi, cont, N=None):
         w = WAVES[what]
         q = np.array([w[i % len(w)] for i in range(N)], float)
     u = q / 4.0 * float(Vpi)
-    if cont in ('int', 'ndarray_int'):
+    if cont in INT_CONT:
         u = np.rint(u)
+    if cont == 'ndarray_f32':
+        u = u.astype(np.float32).astype(float)      # the voltages the float32 container really carries
     return u
 
 
@@ -132,6 +191,8 @@ def realise(u, cont):
         cont = 'float'
     if cont == 'ndarray_int' and not integral:
         cont = 'ndarray'
+    if cont == 'electrical_signal_int' and not integral:
+        cont = 'electrical_signal'
     if cont == 'float':
         return float(u[0])
     if cont == 'int':
@@ -142,8 +203,14 @@ def realise(u, cont):
         return np.array(u, float)
     if cont == 'ndarray_int':
         return np.array(u).astype(np.int64)
+    if cont == 'ndarray_f32':
+        return np.array(u, np.float32)
     if cont == 'electrical_signal':
         return electrical_signal(np.array(u, float))
+    if cont == 'electrical_signal_int':        # electrical_signal keeps the integer dtype of its argument
+        return electrical_signal(np.array(u).astype(np.int64))
+    if cont == 'electrical_signal_cplx':       # what electrical_signal('1 2 3') / a complex baseband waveform stores: x + 0j
+        return electrical_signal(np.array(u, complex))
     if cont == 'electrical_signal_noisy':      # a drive that carries its own (electrical) noise component
         uu = np.array(u, float)
         return electrical_signal(uu, 0.3 * (1 - 2 * (np.arange(uu.size) % 2)) + 0.05 * np.arange(uu.size))
@@ -157,8 +224,9 @@ def make_input(layout, noise, N, seed):
     s = build_field(layout, N, seed)
     n = build_noise(noise, layout, N, seed)
     x = optical_signal(s, n)
-    s_in = np.array(x.signal)
-    n_in = None if x.noise is None else np.array(x.noise)
+    # the reference works on the STORED values, converted exactly to complex128 (every stored dtype embeds exactly)
+    s_in = np.array(x.signal).astype(complex)
+    n_in = None if x.noise is None else np.array(x.noise).astype(complex)
     return x, s_in, n_in
 
 
@@ -224,8 +292,9 @@ def mzm_case(case):
     bias = case['bias'] * float(Vpi)
     x, s_in, n_in = make_input(layout, noise, N, seed)
     u = drive_values(spec, Vpi, cont, N)
-    viol, stats = [], {'mzm_calls': 0}
+    viol, stats = [], {'mzm_calls': 0, f'mzm_field_dtype_{x.signal.dtype.name}': 1}
     tag = f'{cont}-drive'
+    prec = prec_of([cont])
 
     def fail(key, msg):
         viol.append((key, f'MZM(layout={layout}, noise={noise}, N={N}, drive={cont}:{spec[:2]} u={_short(u)}, bias={bias}, '
@@ -246,7 +315,7 @@ def mzm_case(case):
     r = 10.0 ** (-ER_dB / 20.0)
     theta = np.pi * (u + bias) / (2.0 * float(Vpi))
     h = rl * (np.cos(theta) + 1j * r * np.sin(theta))
-    units = _mzm_units(float(np.max(np.abs(theta))) + np.pi)     # +pi: the shifted drive of the periodicity clause
+    units = prec * _mzm_units(float(np.max(np.abs(theta))) + np.pi)     # +pi: the shifted drive of the periodicity clause
 
     osig = np.asarray(out.signal)
     onoise = None if out.noise is None else np.asarray(out.noise)
@@ -264,7 +333,7 @@ def mzm_case(case):
     if e:
         fail('MZM:transfer:signal', f'sample {e[0]}: out={e[1]} expected in*h={e[2]} |diff|={e[3]:.3g} > {units:.0f} eps*sqrt(loss)*|in|={e[4]:.3g}')
     # --- passivity ---
-    if np.any(np.abs(osig) > scale_s * (1 + 16 * EPS)):
+    if np.any(np.abs(osig) > scale_s * (1 + 16 * EPS * prec)):
         i = np.unravel_index(int(np.argmax(np.abs(osig) - scale_s)), osig.shape)
         fail('MZM:passivity', f'sample {i}: |out|={abs(osig[i])!r} > sqrt(loss)*|in|={scale_s[i]!r}')
     # --- unselected polarisation extinguished ---
@@ -282,7 +351,7 @@ def mzm_case(case):
             if e:
                 fail('MZM:transfer:noise', f'noise sample {e[0]}: out={e[1]} expected noise*h={e[2]} |diff|={e[3]:.3g} > tol {e[4]:.3g} '
                                            f'(accompanying noise must be modulated exactly like the signal)')
-            if np.any(np.abs(onoise) > scale_n * (1 + 16 * EPS)):
+            if np.any(np.abs(onoise) > scale_n * (1 + 16 * EPS * prec)):
                 fail('MZM:passivity:noise', 'noise component amplified: |noise_out| > sqrt(loss)*|noise_in|')
             if two and np.any(onoise[1 - sel] != 0):
                 fail('MZM:pol-not-extinguished:noise', f'pol={pol}: unselected polarisation of the noise is {_short(onoise[1 - sel])}')
@@ -326,22 +395,42 @@ def mzm_case(case):
     else:
         p_on, p_off = np.abs(np.asarray(on.signal)) ** 2, np.abs(np.asarray(off.signal)) ** 2
         er_lin = 10.0 ** (ER_dB / 10.0)
-        lim = 64 * EPS * scale_s ** 2          # P_on = loss |in|^2 (1 +- few eps); cos(pi/2)^2 * ER_lin <= 1e-24 is far below
+        lim = 64 * EPS * prec * scale_s ** 2   # P_on = loss |in|^2 (1 +- few eps); cos(pi/2)^2 * ER_lin <= 1e-24 is far below
         if np.any(np.abs(p_on - er_lin * p_off) > lim):
             i = np.unravel_index(int(np.argmax(np.abs(p_on - er_lin * p_off) - lim)), p_on.shape)
             ratio = p_on[i] / p_off[i] if p_off[i] else float('inf')
             fail('MZM:onoff-ratio', f'sample {i}: P(theta=0)/P(theta=pi/2) = {ratio!r} ({10 * np.log10(ratio):.6f} dB), ER_dB = {ER_dB}')
 
-    # --- mismatched lengths raise ValueError ---
+    # --- mismatched lengths raise ValueError (every length of wrong_lengths(N), whatever the field length) ---
     if not is_scalar_cont(cont):
-        for dN in (-1, 1):
-            ubad = drive_values(spec, Vpi, cont, N + dN)
-            _, ex = run(ubad)
+        for Nbad in wrong_lengths(N, cont):
+            ubad = drive_values(spec, Vpi, cont, Nbad)
+            ob, ex = run(ubad)
             stats['mzm_wrong_length_calls'] = stats.get('mzm_wrong_length_calls', 0) + 1
             if ex is None:
-                fail(f'MZM:wrong-length-accepted:{cont}', f'{cont} drive of length {N + dN} for a field of length {N} was accepted')
+                fail(f'MZM:wrong-length-accepted:{cont}', f'{cont} drive of length {Nbad} for a field of length {N} was accepted '
+                                                          f'(output shape {np.shape(ob.signal)}, input shape {s_in.shape})')
             elif not isinstance(ex, ValueError):
-                fail(f'MZM:{tag}:{type(ex).__name__}', f'drive of length {N + dN} raised {type(ex).__name__} instead of ValueError: {ex}')
+                fail(f'MZM:{tag}:{type(ex).__name__}', f'drive of length {Nbad} raised {type(ex).__name__} instead of ValueError: {ex}')
+        # --- a length-1 array against N > 1 samples: the statement leaves open whether that is a "scalar" drive or a
+        #     "mismatched length"; it is either rejected with ValueError or applied as the constant drive, nothing else ---
+        if N > 1:
+            u1 = drive_values(spec, Vpi, cont, 1)
+            o1, ex = run(u1)
+            if ex is not None:
+                stats['mzm_len1_drive_rejected'] = 1
+                if not isinstance(ex, ValueError):
+                    fail(f'MZM:len1-drive:{type(ex).__name__}', f'{cont} drive of length 1 for a field of length {N} raised {type(ex).__name__}: {ex}')
+            else:
+                stats['mzm_len1_drive_accepted'] = 1
+                th1 = np.pi * (u1[0] + bias) / (2.0 * float(Vpi))
+                ref1 = s_in * (rl * (np.cos(th1) + 1j * r * np.sin(th1)))
+                if two:
+                    ref1[1 - sel] = 0
+                o1s = np.asarray(o1.signal)
+                if o1s.shape != s_in.shape or _excess(o1s, ref1, scale_s, units):
+                    fail('MZM:len1-drive:not-the-constant-drive', f'{cont} drive of length 1 ({u1[0]!r}) for a field of length {N} was accepted '
+                                                                  f'but the output (shape {o1s.shape}) is not in*h(u) sample by sample')
 
     nt = _nz(n_in) or two or not is_scalar_cont(cont) or cont != 'float'
     return res(viol=viol, obs=obs, nontrivial=bool(nt), stats=stats)
@@ -360,7 +449,8 @@ def pm_case(case):
     layout, noise, N, seed, Vpi = case['layout'], case['noise'], case['N'], case['seed'], case['Vpi']
     ops = case['ops']
     x, s_in, n_in = make_input(layout, noise, N, seed)
-    viol, stats = [], {'pm_calls': 0}
+    viol, stats = [], {'pm_calls': 0, f'pm_field_dtype_{x.signal.dtype.name}': 1}
+    prec = prec_of([c for c, _ in ops])
     us = [drive_values(spec, Vpi, cont, N) for cont, spec in ops]
     utot = np.sum(us, axis=0)
     desc = ' -> '.join(f'{c}:{_short(u) if not is_scalar_cont(c) else u[0]!r}' for (c, _), u in zip(ops, us))
@@ -401,7 +491,7 @@ def pm_case(case):
         tout = osig if onoise is None else osig + onoise
         pin, pout = np.abs(tin) ** 2, np.abs(tout) ** 2
         mag = (np.abs(s_in) + (0 if n_in is None else np.abs(n_in))) ** 2
-        if np.any(np.abs(pin - pout) > 64 * EPS * (mag + 1e-300)):
+        if np.any(np.abs(pin - pout) > 64 * EPS * prec * (mag + 1e-300)):
             i = np.unravel_index(int(np.argmax(np.abs(pin - pout))), pin.shape)
             fail('PM:total-power-changed:noisy-drive', f'drive with an electrical noise component: sample {i}: |S+N|^2 in = {pin[i]!r}, out = {pout[i]!r} '
                                                        f'(signal and noise rotated by different angles)')
@@ -409,7 +499,7 @@ def pm_case(case):
 
     phis = [float(np.max(np.abs(u))) * np.pi / float(Vpi) for u in us]
     phi_tot = float(np.max(np.abs(utot))) * np.pi / float(Vpi)
-    units = _pm_units(phis, phi_tot)
+    units = prec * _pm_units(phis, phi_tot)
     rot = np.exp(1j * np.pi * utot / float(Vpi))
     what = 'pi*u/Vpi' if len(ops) == 1 else 'pi*(sum of drives)/Vpi'
 
@@ -453,14 +543,29 @@ def pm_case(case):
     # mismatched lengths raise ValueError (single-op cases only)
     if len(ops) == 1 and not is_scalar_cont(ops[0][0]):
         cont, spec = ops[0]
-        for dN in (-1, 1):
-            ubad = drive_values(spec, Vpi, cont, N + dN)
-            _, ex = lib_call(PM, x, realise(ubad, cont), Vpi)
+        for Nbad in wrong_lengths(N, cont):
+            ubad = drive_values(spec, Vpi, cont, Nbad)
+            ob, ex = lib_call(PM, x, realise(ubad, cont), Vpi)
             stats['pm_wrong_length_calls'] = stats.get('pm_wrong_length_calls', 0) + 1
             if ex is None:
-                fail(f'PM:wrong-length-accepted:{cont}', f'{cont} drive of length {N + dN} for a field of length {N} was accepted')
+                fail(f'PM:wrong-length-accepted:{cont}', f'{cont} drive of length {Nbad} for a field of length {N} was accepted '
+                                                         f'(output shape {np.shape(ob.signal)}, input shape {s_in.shape})')
             elif not isinstance(ex, ValueError):
-                fail(f'PM:{cont}-drive:{type(ex).__name__}', f'{cont} drive of length {N + dN} (field {N}) raised {type(ex).__name__} instead of ValueError: {ex}')
+                fail(f'PM:{cont}-drive:{type(ex).__name__}', f'{cont} drive of length {Nbad} (field {N}) raised {type(ex).__name__} instead of ValueError: {ex}')
+        # a length-1 array against N > 1 samples: rejected with ValueError or applied as the constant drive (statement is silent which)
+        if N > 1:
+            u1 = drive_values(spec, Vpi, cont, 1)
+            o1, ex = lib_call(PM, x, realise(u1, cont), Vpi)
+            if ex is not None:
+                stats['pm_len1_drive_rejected'] = 1
+                if not isinstance(ex, ValueError):
+                    fail(f'PM:len1-drive:{type(ex).__name__}', f'{cont} drive of length 1 for a field of length {N} raised {type(ex).__name__}: {ex}')
+            else:
+                stats['pm_len1_drive_accepted'] = 1
+                o1s = np.asarray(o1.signal)
+                if o1s.shape != s_in.shape or _excess(o1s, s_in * np.exp(1j * np.pi * u1[0] / float(Vpi)), np.abs(s_in), units):
+                    fail('PM:len1-drive:not-the-constant-drive', f'{cont} drive of length 1 ({u1[0]!r}) for a field of length {N} was accepted '
+                                                                 f'but the output (shape {o1s.shape}) is not in*exp(j pi u/Vpi) sample by sample')
 
     nt = (_nz(n_in) or s_in.ndim == 2 or any(not is_scalar_cont(c) or c != 'float' for c, _ in ops)
           or (len(ops) > 1 and bool(np.any(utot != 0))))
@@ -470,7 +575,12 @@ def pm_case(case):
 # ----------------------------------------------------------------------------- LASER
 GRIDS = [{}, {'sps': 8, 'R': 1e9}]
 LASER_N = [16, 64]
+LASER_N_SHORT = [1, 2]               # degenerate records: only the level clause (and the trivial peak) applies
 LASER_T0 = [0, 3]
+# dtype / unit of the time vector: seconds on the gv grid as float64 / float32, or integer sample indices (1 s steps)
+# as int64 / int32 / uint8  (LASER derives the envelope from `t`, so the dtype of t must not leak into the amplitude)
+LASER_TK = ['f64', 'i64', 'i32', 'f32', 'u8']
+T_DTYPE = {'f64': float, 'f32': np.float32, 'i64': np.int64, 'i32': np.int32, 'u8': np.uint8}
 LASER_P = [0.0, 10.0, -30.0, 23.5]
 LASER_LW = [None, 0.0, 1e5, 1e7, 1e9]
 LASER_ANS = ['zero', 'ramp', 'altpi', 'seeded', 'big']
@@ -502,12 +612,24 @@ def laser_case(case):
     gv = gv_reset(**case['grid'])
     fs, dt = float(gv.fs), float(gv.dt)
     N, t0, p, lw, ans, m, seed = case['N'], case['t0'], case['p'], case['lw'], case['ans'], case['m'], case['seed']
-    t = (np.arange(N) + t0) * dt
-    df = None if m is None else fs * (m / N)          # m/N is dyadic -> exact; |df| <= fs/2 exactly
-    viol, stats = [], {'laser_calls': 0}
+    tk = case.get('tk', 'f64')
+    if tk in ('f64', 'f32'):
+        t = ((np.arange(N) + t0) * dt).astype(T_DTYPE[tk])
+        step = dt
+        df = None if m is None else fs * (m / N)      # m/N is dyadic -> exact; |df| <= fs/2 exactly
+        tdesc = f'((arange({N})+{t0})*dt).astype({tk})'
+    else:
+        # integer sample indices: the grid of t is 1 s, bin m of the N-point FFT is m/N Hz (far inside gv.fs/2)
+        t = (np.arange(N) + t0).astype(T_DTYPE[tk])
+        step = 1.0
+        df = None if m is None else m / N
+        tdesc = f'(arange({N})+{t0}).astype({tk})'
+    # float32 time vector: numpy evaluates the envelope / the offset phasor in single precision
+    prec = EPS32 / EPS if tk == 'f32' else 1.0
+    viol, stats = [], {'laser_calls': 0, f'laser_t_{tk}': 1}
 
     def fail(key, msg):
-        viol.append((key, f'LASER(t=(arange({N})+{t0})*dt, p={p}, lw={lw}, rin=None, df={df!r}) fs={fs:g} phase-noise answers={ans}: {msg}'))
+        viol.append((key, f'LASER(t={tdesc}, p={p}, lw={lw}, rin=None, df={df!r}) fs={fs:g} phase-noise answers={ans}: {msg}'))
 
     def run(dfv):
         script = ScriptedRNG(_answer(ans, seed))
@@ -533,7 +655,7 @@ def laser_case(case):
     tot = E if out.noise is None else E + np.asarray(out.noise)
     pw = np.abs(tot) ** 2
     # level: idbm exponent rounding (2.3*6 eps) + pow ulp on both sides, sqrt+square, two unit phasors, two products: < 32 eps; x2
-    if np.any(np.abs(pw - P) > 64 * EPS * P):
+    if np.any(np.abs(pw - P) > 64 * EPS * prec * P):
         i = int(np.argmax(np.abs(pw - P)))
         fail('LASER:power-not-constant', f'sample {i}: |E|^2 = {pw[i]!r}, P = {P!r} (rel. dev. {abs(pw[i] - P) / P:.3g})')
     phase_free = lw is None or ans == 'zero' or lw == 0.0
@@ -542,7 +664,7 @@ def laser_case(case):
         k = int(np.argmax(np.abs(np.fft.fft(E))))
         want = 0 if kb is None else kb
         if k != want:
-            fail('LASER:spectral-peak-not-at-df', f'no phase noise: FFT peak at bin {k} (f = {np.fft.fftfreq(N, dt)[k]:g} Hz), df = {df!r} is bin {want}')
+            fail('LASER:spectral-peak-not-at-df', f'no phase noise: FFT peak at bin {k} (f = {np.fft.fftfreq(N, step)[k]:g} Hz), df = {df!r} is bin {want}')
     if m is not None:
         # the frequency-offset term alone: same scripted phase noise with and without df
         base, exc0, script0 = run(None)
@@ -550,12 +672,12 @@ def laser_case(case):
             fail(f'LASER:within-nyquist:{type(exc0).__name__}', f'df=None raised {type(exc0).__name__}: {exc0}')
         else:
             ratio = E * np.conj(np.asarray(base.signal)) / P
-            if np.any(np.abs(np.abs(ratio) - 1) > 64 * EPS):
+            if np.any(np.abs(np.abs(ratio) - 1) > 64 * EPS * prec):
                 fail('LASER:offset-term-not-a-rotation', f'|E(df)/E(df=None)| deviates from 1 by {np.max(np.abs(np.abs(ratio) - 1)):.3g}')
             k = int(np.argmax(np.abs(np.fft.fft(ratio))))
             if k != kb:
                 fail('LASER:spectral-peak-not-at-df', f'offset term E(df)/E(df=None): FFT peak at bin {k} '
-                                                      f'(f = {np.fft.fftfreq(N, dt)[k]:g} Hz), df = {df!r} is bin {kb}')
+                                                      f'(f = {np.fft.fftfreq(N, step)[k]:g} Hz), df = {df!r} is bin {kb}')
     # conformance of the documented Wiener model (statistic only, not part of the statement)
     if lw is not None and script.requests:
         stats['laser_normal_requests'] = len(script.requests)
@@ -600,7 +722,8 @@ def deviations(axes, k):
     return out
 
 
-def mzm_cases(k, seed):
+def mzm_cases(k, seed, layouts=None):
+    layouts = LAYOUTS if layouts is None else layouts
     cases = []
     sizes = {}
     for kindname, conts, specs in (('scalar', SCALAR_CONT, LVL_SPECS), ('waveform', WAVE_CONT_MZM, WAVE_SPECS)):
@@ -608,7 +731,7 @@ def mzm_cases(k, seed):
         lat = deviations(axes, k)
         sizes[kindname] = len(lat)
         for pi_, (r, p) in enumerate(lat):
-            for li, layout in enumerate(LAYOUTS):
+            for li, layout in enumerate(layouts):
                 for ni, noise in enumerate(NOISES):
                     for ci, cont in enumerate(conts):
                         c = dict(p)
@@ -621,7 +744,7 @@ def mzm_cases(k, seed):
 def pm_product_cases(seed):
     cases = []
     for Vpi in VPI:
-        for layout in LAYOUTS:
+        for layout in LAYOUTS + LAYOUTS_X:
             for noise in NOISES:
                 for conts, specs in ((SCALAR_CONT, LVL_SPECS), (WAVE_CONT_PM, WAVE_SPECS)):
                     for cont in conts:
@@ -656,15 +779,17 @@ def pm_seq_cases(depth, full, seed, layouts, noises, vpis):
 
 def laser_cases(seed):
     cases = []
-    for grid in GRIDS:
-        for N in LASER_N:
-            ms = [None, 0, 1, -1, 3, -3, N // 8, -(N // 8), N // 2, -(N // 2)]
-            for t0 in LASER_T0:
-                for p in LASER_P:
-                    for lw in LASER_LW:
-                        for ans in (['zero'] if lw is None else LASER_ANS):
-                            for m in ms:
-                                cases.append({'grid': grid, 'N': N, 't0': t0, 'p': p, 'lw': lw, 'ans': ans, 'm': m, 'seed': seed})
+    for tk in LASER_TK:
+        for grid in GRIDS:
+            for N in LASER_N + LASER_N_SHORT:
+                ms = [None, 0, 1, -1, 3, -3, N // 8, -(N // 8), N // 2, -(N // 2)] if N >= 16 else [None, 0]
+                for t0 in LASER_T0:
+                    for p in LASER_P:
+                        for lw in LASER_LW:
+                            for ans in (['zero'] if lw is None else LASER_ANS):
+                                for m in ms:
+                                    cases.append({'grid': grid, 'N': N, 't0': t0, 'p': p, 'lw': lw, 'ans': ans, 'm': m,
+                                                  'seed': seed, 'tk': tk})
     return cases
 
 
@@ -685,7 +810,8 @@ def run(ctx):
     k = 2 if quick else 3
     seed = int(ctx.seed)
     ctx.assume('cos/sin/exp/pow of numpy are faithful to ~1 ulp; tolerances are k*eps rounding bounds relative to sqrt(loss)*|in| '
-               '(MZM) or |in| (PM), k derived from the operation count and the largest phase argument (see _mzm_units/_pm_units)')
+               '(MZM) or |in| (PM), k derived from the operation count and the largest phase argument (see _mzm_units/_pm_units); '
+               'with a float32 drive array / float32 time vector numpy works in single precision and eps is the float32 eps')
     ctx.assume('the scripted RNG stands for numpy.random.normal: LASER draws its phase-noise increments only through that entry point '
                '(any other numpy.random call fails loudly as unscripted randomness)')
     ctx.assume('continuum quantifiers (all complex fields, all drive voltages) are covered at the per-sample alphabet points only: '
@@ -696,14 +822,25 @@ def run(ctx):
     mz, sizes = mzm_cases(k, seed)
     ctx.space('mzm.lattice.points.scalar-drive', sizes['scalar'])
     ctx.space('mzm.lattice.points.waveform-drive', sizes['waveform'])
-    ctx.rule(f'MZM: deviation lattice k<={k} over (drive values[17 levels | {len(WAVE_SPECS)} waveforms], bias{BIAS}*Vpi, Vpi{VPI}, '
+    ctx.rule(f'MZM: deviation lattice k<={k} over (drive values[{len(LVL_SPECS)} level records | {len(WAVE_SPECS)} waveform records, field lengths '
+             f'1, 2, 3, 6, 102], bias{BIAS}*Vpi, Vpi{VPI}, '
              f'loss{LOSS}, ER{ER}, pol{POL}) around (u=Vpi/4 | ramp6, 0, 5, 0, 26, x); at EVERY lattice point the full product '
              f'layouts{LAYOUTS} x noise{NOISES} x containers{SCALAR_CONT + WAVE_CONT_MZM}; per case: transfer identity on signal and noise, '
-             f'passivity, pol extinction, container equivalence, +2Vpi periodicity, on/off ratio, wrong lengths N-1/N+1')
+             f'passivity, pol extinction, container equivalence, +2Vpi periodicity, on/off ratio, every wrong drive length of '
+             f'{{0, 2, 3, N-1, N+1, N+6, 2N}} for the field length N (N = 1 included) must raise ValueError, a length-1 drive array against '
+             f'N > 1 is either rejected with ValueError or applied as the constant drive')
     ctx.pmap('mzm.lattice', mzm_case, mz, horizon=20)
 
-    ctx.rule(f'PM: full product Vpi{VPI} x layouts x noise x (3 scalar containers x 17 levels + {len(WAVE_CONT_PM)} waveform containers x '
-             f'{len(WAVE_SPECS)} waveforms); phase shift pi*u/Vpi on signal AND noise, |S+N|^2 unchanged, wrong lengths')
+    mzx, sizes_x = mzm_cases(k - 1, seed, LAYOUTS_X)
+    ctx.space('mzm.dtypes.points.scalar-drive', sizes_x['scalar'])
+    ctx.space('mzm.dtypes.points.waveform-drive', sizes_x['waveform'])
+    ctx.rule(f'MZM stored-dtype layouts {LAYOUTS_X} (real / int64 / int32 / float32 / complex64 fields whose noise has the same dtype): '
+             f'the same lattice with k<={k - 1}, full product x noise x containers at every point, same oracles')
+    ctx.pmap('mzm.dtypes', mzm_case, mzx, horizon=20)
+
+    ctx.rule(f'PM: full product Vpi{VPI} x layouts{LAYOUTS + LAYOUTS_X} x noise x (3 scalar containers x {len(LVL_SPECS)} level records + '
+             f'{len(WAVE_CONT_PM)} waveform containers{WAVE_CONT_PM} x {len(WAVE_SPECS)} waveform records, field lengths 1, 2, 3, 6, 102); '
+             f'phase shift pi*u/Vpi on signal AND noise, |S+N|^2 unchanged, wrong lengths {{0, 2, 3, N-1, N+1, N+6, 2N}}, length-1 drive array against N > 1')
     ctx.pmap('pm.product', pm_case, pm_product_cases(seed), horizon=20)
 
     s2, n2 = pm_seq_cases(2, True, seed, ['1pol', '2pol'], NOISES if not quick else ['none', 'alt', 'ramp', 'zero'], VPI[:2])
@@ -715,10 +852,13 @@ def run(ctx):
     ctx.pmap('pm.seq3', pm_case, s3, horizon=20)
 
     lc = laser_cases(seed)
-    ctx.rule(f'LASER (scripted RNG): full product grids{GRIDS} x N{LASER_N} x t-offset{LASER_T0} x p_dBm{LASER_P} x lw{LASER_LW} x '
+    ctx.rule(f'LASER (scripted RNG): full product time-vector kinds{LASER_TK} (seconds as float64/float32, integer sample indices as '
+             f'int64/int32/uint8 with df in cycles per index) x grids{GRIDS} x N{LASER_N} (+ degenerate N{LASER_N_SHORT} with df in (None, 0)) x '
+             f't-offset{LASER_T0} x p_dBm{LASER_P} x lw{LASER_LW} x '
              f'phase-noise answer vectors{LASER_ANS} x df on bins {{None,0,+-1,+-3,+-N/8,+-N/2}}: |E|^2 == P at every sample, FFT peak at df '
              f'(of E when the phase noise is nil, of E(df)/E(df=None) under the same answers otherwise); |df| > fs/2 raises ValueError')
     ctx.pmap('laser.product', laser_case, lc, horizon=20)
     ctx.pmap('laser.nyquist', laser_nyquist_case, laser_nyquist_cases(), horizon=20)
     ctx.extra['bounds'] = {'mzm_deviation_k': k, 'pm_seq_depth': 3, 'pm_seq_alphabet': {'depth2': n2, 'depth3': n3},
-                           'record_lengths': [2, 6, 102]}
+                           'record_lengths': [1, 2, 3, 6, 102], 'mzm_dtype_layout_k': k - 1,
+                           'laser_time_vector_kinds': LASER_TK}
